@@ -2,6 +2,7 @@ package main
 
 import (
 	"encoding/json"
+	"go/types"
 	"flag"
 	"fmt"
 	"os"
@@ -33,6 +34,8 @@ type FuncSel struct {
 	Mode       string `json:"mode"`        // "contract" (default): functions with a contract; "sweep": all matching functions, safety only
 	Alloc      string `json:"alloc"`       // sweep: bound for every make() as a contract expression, e.g. "64*len(buf)+4096"
 	Exclude    string `json:"exclude"`     // regexp of functions to leave out
+	ParamInvs  map[string]string `json:"param_invs"` // sweep: parameter type -> invariant over $p
+	Kinds      string `json:"kinds"`       // regexp on obligation kinds claimed for this selection (default: all)
 	Why        string `json:"why"`
 }
 
@@ -129,6 +132,9 @@ func runCheck(prop, tier, repo, evdir string, verbose bool) int {
 	type job struct {
 		fn   *ssa.Function
 		sel  FuncSel
+		ikey string // refinement job: interface contract key
+		ict  *Contract
+		ifT  types.Type
 	}
 	var jobs []job
 	seen := map[string]bool{}
@@ -148,6 +154,40 @@ func runCheck(prop, tier, repo, evdir string, verbose bool) int {
 			ex = regexp.MustCompile(sel.Exclude)
 		}
 		matched := 0
+		if sel.Mode == "refine" {
+			var ikeys []string
+			for k := range eng.Contracts {
+				if isIfaceKey(eng, k) && rx.MatchString(k) {
+					ikeys = append(ikeys, k)
+				}
+			}
+			sort.Strings(ikeys)
+			for _, k := range ikeys {
+				j := strings.Index(k, ")")
+				ifT := eng.resolveQualifiedType(k[1:j])
+				if ifT == nil {
+					continue
+				}
+				mname := k[j+2:]
+				for _, tn := range eng.IfaceImpls[k[1:j]] {
+					ct := eng.resolveQualifiedType(tn)
+					if ct == nil {
+						continue
+					}
+					m := eng.Prog.LookupMethod(ct, nil, mname)
+					if m == nil {
+						continue
+					}
+					matched++
+					jobs = append(jobs, job{fn: m, sel: sel, ikey: k, ict: eng.Contracts[k], ifT: ifT})
+				}
+			}
+			if matched == 0 {
+				fmt.Printf("TOOL-ERROR CONTRACT-DRIFT no interface contract matches %q any more\n", sel.Re)
+				return 2
+			}
+			continue
+		}
 		for _, n := range names {
 			fn := eng.AllFuncs[n]
 			if !eng.inRepo(fn) || !rx.MatchString(n) || (ex != nil && ex.MatchString(n)) || fn.Blocks == nil {
@@ -155,6 +195,9 @@ func runCheck(prop, tier, repo, evdir string, verbose bool) int {
 			}
 			if sel.Mode != "sweep" && eng.contractFor(fn) == nil {
 				continue
+			}
+			if ct := eng.contractFor(fn); ct != nil && ct.Trusted {
+				continue // assumed, listed as assumption wherever it is used
 			}
 			if fn.Synthetic != "" && !strings.Contains(fn.Synthetic, "instance") {
 				continue
@@ -164,7 +207,7 @@ func runCheck(prop, tier, repo, evdir string, verbose bool) int {
 			}
 			seen[n] = true
 			matched++
-			jobs = append(jobs, job{fn, sel})
+			jobs = append(jobs, job{fn: fn, sel: sel})
 		}
 		if matched == 0 {
 			fmt.Printf("TOOL-ERROR CONTRACT-DRIFT no function under contract matches %q any more\n", sel.Re)
@@ -173,9 +216,9 @@ func runCheck(prop, tier, repo, evdir string, verbose bool) int {
 	}
 	work, _ := os.MkdirTemp("/var/tmp", "gcv-work-")
 	defer os.RemoveAll(work)
-	timeout := 10000
+	timeout := 5000
 	if tier == "thorough" {
-		timeout = 60000
+		timeout = 30000
 	}
 	type result struct {
 		f  *FuncVC
@@ -184,9 +227,24 @@ func runCheck(prop, tier, repo, evdir string, verbose bool) int {
 	results := make([]result, len(jobs))
 	// VC generation is sequential (shared caches); solving is parallel.
 	var wg sync.WaitGroup
-	sem := make(chan struct{}, 6)
+	sem := make(chan struct{}, 12)
 	for i, j := range jobs {
-		f := eng.GenVC(j.fn, VerifyOpts{SafetyOnly: j.sel.Mode == "sweep", AllocBound: j.sel.Alloc, NoFrame: j.sel.Mode == "sweep"})
+		if j.ikey != "" {
+			f := eng.GenRefinementVC(j.ikey, j.ict, j.fn, j.ifT)
+			results[i].f = f
+			if f.Unsupported != "" || f.ContractErr != "" {
+				continue
+			}
+			wg.Add(1)
+			go func(i int, f *FuncVC) {
+				defer wg.Done()
+				sem <- struct{}{}
+				defer func() { <-sem }()
+				results[i].vs = Solve(f, SolveOpts{TimeoutMs: timeout, WorkDir: work, Cross: tier == "thorough"})
+			}(i, f)
+			continue
+		}
+		f := eng.GenVC(j.fn, VerifyOpts{SafetyOnly: j.sel.Mode == "sweep", AllocBound: j.sel.Alloc, NoFrame: j.sel.Mode == "sweep", ParamInvs: j.sel.ParamInvs})
 		results[i].f = f
 		if f.Unsupported != "" || f.ContractErr != "" {
 			continue
@@ -243,6 +301,12 @@ func runCheck(prop, tier, repo, evdir string, verbose bool) int {
 			nOb++
 			obs = append(obs, obRec{Name: name, Kind: "subset", Func: f.Name, Status: "undecided", Text: f.Unsupported})
 			continue
+		}
+		for _, v := range r.vs {
+			if v != nil && v.Status == "error" {
+				fmt.Printf("TOOL-ERROR solver rejected the script generated for %s: %s\n", f.Name, v.Output)
+				return 2
+			}
 		}
 		for _, v := range r.vs {
 			o := v.Oblig
